@@ -84,6 +84,8 @@ def jobs(tier):
                     J.append(_cfg('parallel-N2-%d%d' % (p0, p1), 2, 2, 3,
                                   'const', 'none', tier, parallel=True,
                                   par_fixed={'0': p0, '1': p1}))
+        J.append(_cfg('parallel-condfresh-N2', 2, 1, 3, 'const', 'fresh', tier,
+                      parallel=True, par_fixed={'0': True}))
         J.append(_cfg('nested-N2', 2, 2, 3, 'const', 'none', tier, nested=True))
         J.append(_cfg('nested-condfresh-N2', 2, 1, 3, 'const', 'fresh', tier,
                       nested=True))
@@ -226,5 +228,10 @@ def body(ctx, cfg):
     # ---- quiet
     quiet = [q['call'] is None for p in run.procs.values() for q in p.polls
              if q['cond'] is False]
+    # ... and a process that has a condition is only invoked after its own
+    # update_condition was consulted in that poll and said yes
+    quiet += [c['poll'] is not None and c['poll']['cond'] is True
+              for p in run.procs.values() if p.cond != 'none'
+              for c in p.ncalls]
     ctx.claim('C01.quiet', AND(quiet), sig='quiet', info=describe)
     goals(ctx, run)
